@@ -5,6 +5,7 @@ pub mod elems;
 pub mod exec;
 pub mod faults;
 pub mod features;
+pub mod fuzzing;
 pub mod gen;
 pub mod instr;
 pub mod interp;
